@@ -132,7 +132,7 @@ def translation_part(rep, shard):
     # currying: 1 <= n_wires <= len(dom), both sides
     for dom in [t for t in tys if len(t)] + [tys[0] @ tys[3] @ tys[1], tys[2] @ tys[4]]:
         f = biclosed.Box('f', dom, tys[1])
-        for n_wires in range(1, len(dom) + 1):
+        for n_wires in range(0, len(dom) + 1):
             for left in (False, True):
                 idx += 1
                 if idx % shard[1] != shard[0]:
